@@ -731,7 +731,7 @@ fn main() {
         "From Coq Require Import ZArith List. Import ListNotations. Open Scope Z_scope.\nFrom FV Require Import Lib.Cases C05.Model.",
         "case_ty",
         "check_case",
-        if thorough { 400 } else { 160 },
+        if thorough { 200 } else { 80 },
     );
     let mut cx = Ctx { st: Stats::new(), cw, seen: HashSet::new() };
     let scale = if thorough { 8 } else { 1 };
@@ -751,7 +751,7 @@ fn main() {
         }
     }
     // 2. random DAGs with sizes from the straddling alphabet
-    for _ in 0..700 * scale {
+    for _ in 0..600 * scale {
         let n = 2 + rng.below(6) as usize;
         let (bb, mix, lab) = (1 + rng.below(3) as usize, rng.below(4) as u32, rng.chance(9, 10));
         let d = gen_random(&mut rng, n, bb, mix, lab);
@@ -764,8 +764,9 @@ fn main() {
         let d = gen_straddle(&mut rng);
         run_case(&mut cx, &d, "straddle", true);
     }
-    // 4. wide-link graphs that take the advanced path (model says Beyond; oracle applies)
-    for _ in 0..300 * scale {
+    // 4. wide-link graphs that take the advanced path (space assignment / isolation / duplication;
+    //    modelled since round 2: exact bytes compared; the oracle applies as well)
+    for _ in 0..140 * scale {
         let d = gen_wide(&mut rng);
         run_case(&mut cx, &d, "wide", true);
     }
